@@ -328,42 +328,34 @@ impl NetflowParser {
     ///
     #[inline]
     pub fn parse_bytes(&mut self, packet: &[u8]) -> Vec<NetflowPacket> {
-        if packet.is_empty() {
-            return vec![];
+        let mut results = vec![];
+        // Bytes of `packet` consumed by the packets decoded so far.  Chained packets are parsed
+        // in a loop: one stack frame per packet overflowed the stack on long buffers.
+        let mut offset = 0;
+
+        while offset < packet.len() {
+            let current = &packet[offset..];
+            match self.parse_packet_by_version(current) {
+                Ok(parsed_netflow) => {
+                    results.push(parsed_netflow.result);
+                    let consumed = current.len().saturating_sub(parsed_netflow.remaining.len());
+                    if consumed == 0 {
+                        break;
+                    }
+                    offset += consumed;
+                }
+                Err(NetflowParseError::UnallowedVersion(_)) => break,
+                Err(e) => {
+                    results.push(NetflowPacket::Error(NetflowPacketError {
+                        error: e,
+                        remaining: current.to_vec(),
+                    }));
+                    break;
+                }
+            }
         }
 
-        match self.parse_packet_by_version(packet) {
-            Ok(parsed_netflow) => {
-                let mut results = vec![parsed_netflow.result];
-                if !parsed_netflow.remaining.is_empty() {
-                    results.extend(self.parse_bytes(&parsed_netflow.remaining));
-                }
-                results
-            }
-            Err(e) => match e {
-                NetflowParseError::Incomplete(_) => {
-                    vec![NetflowPacket::Error(NetflowPacketError {
-                        error: e,
-                        remaining: packet.to_vec(),
-                    })]
-                }
-                NetflowParseError::Partial(partial) => {
-                    vec![NetflowPacket::Error(NetflowPacketError {
-                        error: NetflowParseError::Partial(partial),
-                        remaining: packet.to_vec(),
-                    })]
-                }
-                NetflowParseError::UnknownVersion(_) => {
-                    vec![NetflowPacket::Error(NetflowPacketError {
-                        error: e,
-                        remaining: packet.to_vec(),
-                    })]
-                }
-                NetflowParseError::UnallowedVersion(_) => {
-                    vec![]
-                }
-            },
-        }
+        results
     }
 
     /// Takes a Netflow packet slice and returns a vector of Parsed NetflowCommonFlowSet
